@@ -389,7 +389,7 @@ var errnos = []string{"EIO", "ENOSPC", "EEXIST", "ENOENT", "EACCES", "short", "c
 func Main(r *core.Run) {
 	quick := r.Quick()
 	hs := histories(quick)
-	r.Rule("real fsstore on a real directory per execution; for every history (1–3 writes: Put, PutStream with 1–3 chunk writes then commit / abandon / never commit, the storage.Put / PutStream / PutVec helpers with 1–3 segments, same key twice, keys with and without shared shard directories, first write into a fresh store): the process dies before and after every filesystem call of the history and after every prefix of every Write (quick: 0,1,n/2,n-1 bytes); every filesystem call answered with each of EIO/ENOSPC/EEXIST/ENOENT/EACCES/short write, or preceded by the cancellation of the writer's context (thorough: every pair of faults); then a new process re-opens the directory: every key absent or complete, Has agrees, acknowledged writes present, no partial file outside the staging directory, Put+Get of every key works. Schedules: 2–3 threads (writer/writer same key, different keys same/different shard, writer/reader, writer/Has) with a scheduling point before every filesystem call, all interleavings up to the preemption bound, invariant evaluated by a raw-os observer after every step; the same thread bodies once more free-running in a -race build (no controller between the store and the os package), with a final audit. Non-trivial = a fault or a preemption was applied; distinct by (history, fault set) / by schedule.")
+	r.Rule("real fsstore on a real directory per execution; for every history (1–3 writes: Put, PutStream with 1–3 chunk writes then commit / abandon / never commit, the storage.Put / PutStream / PutVec helpers with 1–3 segments, same key twice, keys with and without shared shard directories, first write into a fresh store): the process dies before and after every filesystem call of the history and after every prefix of every Write (quick: 0,1,n/2,n-1 bytes); every filesystem call answered with each of EIO/ENOSPC/EEXIST/ENOENT/EACCES/short write, or preceded by the cancellation of the writer's context (thorough: every pair of faults); then a new process re-opens the directory: every key absent or complete, Has agrees, acknowledged writes present, no partial file outside the staging directory, Put+Get of every key works. Schedules: 2–3 threads (writer/writer same key, different keys same/different shard, writer/reader, writer/Has, and writers on two Store values opened on the one directory) with a scheduling point before every filesystem call, all interleavings up to the preemption bound, invariant evaluated by a raw-os observer after every step; the same thread bodies once more free-running in a -race build (no controller between the store and the os package), with a final audit. Non-trivial = a fault or a preemption was applied; distinct by (history, fault set) / by schedule.")
 	r.Assume("power loss (unsynced page cache) is not modelled: the property speaks of process death")
 	type job struct {
 		c Case
